@@ -114,6 +114,14 @@ structure Facts02 where
   /-- a request whose body is not found under the method name is a Client fault (good) rather than a call
       with missing arguments -/
   missingBodyFault : Bool
+  /-- the cycle guard of `_object_to_doc` holds the ancestors of the node being written (good: `_get_member_pairs` works
+      on a copy, `tags | {id(inst)}`); otherwise one set is shared by the whole traversal and an object that is
+      referenced a second time from a sibling position is taken for a cycle: the member is dropped, the array that
+      contains it is written as null -/
+  guardPathLocal : Bool
+  /-- the object form of a `File` value (`{"name": …, "type": …, "data": …}`) is read by `_doc_to_object` with the
+      validator of the protocol (good); otherwise without any (`_doc_to_object(ctx, cls, inst)`, validator = None) -/
+  fileFormValidated : Bool
   deriving Repr
 
 /-- the switches the round trip of conformant values depends on -/
